@@ -35,7 +35,15 @@ pub fn run(rng: &mut Rng, n: usize, out: &mut Out) {
         out.op("tt.new", &st.apply("tt.new"));
         let nkeys = 1 + rng.below(8);
         // small key space so operations on one key actually collide; keys themselves are spread over u64
-        let keys: Vec<u64> = (0..nkeys).map(|i| if rng.chance(1, 4) { i } else { rng.next() }).collect();
+        // ... or near-identical keys: a base key and keys differing from it in one bit / one byte / one half (an index or
+        // a comparison that drops some bits of the key shows only on such neighbours)
+        let base = rng.next();
+        let near = rng.chance(1, 3);
+        let keys: Vec<u64> = (0..nkeys).map(|i| {
+            if near {
+                match rng.below(5) { 0 => base, 1 => base ^ (1u64 << rng.below(64)), 2 => base ^ (0xffu64 << (8 * rng.below(8))), 3 => base ^ (rng.below(1 << 16) << (16 * rng.below(4))), _ => base ^ (1u64 << rng.below(64)) ^ (1u64 << rng.below(64)) }
+            } else if rng.chance(1, 4) { i } else { rng.next() }
+        }).collect();
         let len = 1 + rng.below(60) as usize;
         let maxd = 1 + rng.below(6);
         let mut trace = String::new();
